@@ -146,6 +146,13 @@ def run (j : Json) : Except String Json := do
                                          else fastSerialize Mp nonFast jsonEnums sn compact cls x))]
     if mapperFree then
       out := out ++ [("regular", resToJson (serializeCompact O compact cls x))]
+    else
+      -- one simple, injective mapper per class (Props/C10 fast_mapper_full_equiv_partial): the regular document is
+      -- then the mapper-free one with every class-level object's keys renamed by its class's own mapper
+      let region := fmsafeD Mp cls
+      out := out ++ [("fmapRegion", .bool region)]
+      if region && !compact then
+        out := out ++ [("regularMapped", resToJson (bindE (serialize O cls (canonV cls x)) fun j => .ok (relV Mp cls j)))]
   else if mode == "oracle" then
     pure ()       -- cases outside the model (Enum serialization_by_value): the harness runs the oracle only
   else throw s!"shortcut: unknown mode {mode}"
